@@ -31,8 +31,9 @@ import (
 )
 
 type cfg struct {
-	pre bool
-	presend []int
+	pre              bool
+	deco             bool
+	presend          []int
 	stage, pkg, mode string
 	mon              string // fork.Fold / Fold: monoid name (default: the non-commutative affine one)
 	cap, par, n, fn  int
@@ -86,6 +87,8 @@ func parseCfg(s string) cfg {
 			c.freq = iv
 		case "dl":
 			c.dl = iv
+		case "deco": // the stage function is a struct that embeds a pipe.F and overrides Apply (decoF)
+			c.deco = iv != 0
 		case "presend":
 			for _, x := range strings.Split(p[1], ",") {
 				if x != "" {
@@ -345,6 +348,39 @@ func pipeF[B any](mode string, f func(int) (B, error)) pipe.F[int, B] {
 	return pipe.Pure(func(x int) B { b, _ := f(x); return b })
 }
 
+// decoF is an application's own morphism: a struct that embeds a pipe.F (which supplies the unexported methods) and
+// overrides Apply. The stage must call THIS Apply. The embedded morphism computes pre(f(x)), the override applies post,
+// with post(pre(b)) == b: the stage sees f exactly when it goes through the override.
+type decoF[B any] struct {
+	pipe.F[int, B]
+	post func(B) B
+}
+
+func (d decoF[B]) Apply(x int) (B, error) {
+	b, err := d.F.Apply(x)
+	if err != nil {
+		return b, err
+	}
+	return d.post(b), nil
+}
+
+func decorated[B any](deco bool, mode string, f func(int) (B, error), pre, post func(B) B) pipe.F[int, B] {
+	if !deco {
+		return pipeF(mode, f)
+	}
+	return decoF[B]{F: pipeF(mode, func(x int) (B, error) {
+		b, err := f(x)
+		if err != nil {
+			return b, err
+		}
+		return pre(b), nil
+	}), post: post}
+}
+
+func subK(b int) int   { return b - 1000 }
+func addK(b int) int   { return b + 1000 }
+func notB(b bool) bool { return !b }
+
 func forkF[B any](mode string, f func(int) (B, error)) fork.F[int, B] {
 	switch mode {
 	case "try":
@@ -416,7 +452,7 @@ func build(ctx context.Context, e *env) ([]chan int, []outp) {
 	}
 	switch c.stage {
 	case "Map":
-		o, x := pipe.Map(ctx, in, pipeF(c.mode, e.either(fMap)))
+		o, x := pipe.Map(ctx, in, decorated(c.deco, c.mode, e.either(fMap), subK, addK))
 		return ins, []outp{outInt(o), outErr(x)}
 	case "FMap":
 		var ff pipe.FF[int, int]
@@ -428,12 +464,12 @@ func build(ctx context.Context, e *env) ([]chan int, []outp) {
 		o, x := pipe.FMap(ctx, in, ff)
 		return ins, []outp{outInt(o), outErr(x)}
 	case "Filter":
-		return ins, []outp{outInt(pipe.Filter(ctx, in, pipeF(c.mode, e.eitherB(p))))}
+		return ins, []outp{outInt(pipe.Filter(ctx, in, decorated(c.deco, c.mode, e.eitherB(p), notB, notB)))}
 	case "Partition":
-		l, r := pipe.Partition(ctx, in, pipeF(c.mode, e.eitherB(p)))
+		l, r := pipe.Partition(ctx, in, decorated(c.deco, c.mode, e.eitherB(p), notB, notB))
 		return ins, []outp{outInt(l), outInt(r)}
 	case "TakeWhile":
-		return ins, []outp{outInt(pipe.TakeWhile(ctx, in, pipeF(c.mode, e.eitherB(p))))}
+		return ins, []outp{outInt(pipe.TakeWhile(ctx, in, decorated(c.deco, c.mode, e.eitherB(p), notB, notB)))}
 	case "Take":
 		return ins, []outp{outInt(pipe.Take(ctx, in, c.n))}
 	case "ForEach":
